@@ -654,11 +654,14 @@ func (e *kvElection) Stop() error {
 	e.recordTransition(currentState, StateStopped)
 	e.updateIsLeaderMetric()
 
+	e.mu.Unlock()
+
+	// After releasing the election mutex: the disconnect handler takes its own
+	// mutex first and the election mutex second (grace expiry, logging), so
+	// taking them here in the opposite order could deadlock.
 	if e.disconnectHandler != nil {
 		e.disconnectHandler.stop()
 	}
-
-	e.mu.Unlock()
 
 	log := e.getLogger()
 	log.Info("election_stopped",
@@ -723,11 +726,14 @@ func (e *kvElection) StopWithContext(ctx context.Context, opts StopOptions) erro
 	e.recordTransition(currentState, StateStopped)
 	e.updateIsLeaderMetric()
 
+	e.mu.Unlock()
+
+	// After releasing the election mutex: the disconnect handler takes its own
+	// mutex first and the election mutex second (grace expiry, logging), so
+	// taking them here in the opposite order could deadlock.
 	if e.disconnectHandler != nil {
 		e.disconnectHandler.stop()
 	}
-
-	e.mu.Unlock()
 
 	if e.connectionMonitor != nil {
 		_ = e.connectionMonitor.Stop()
